@@ -61,6 +61,13 @@ def analyse_arm(name, arm):
     stmts = arm_stmts(arm)
     cur = cursor_of(stmts)
     info["cursor"] = cur
+    # `let version = state.game.start.slippi.version;` style aliases
+    alias = {}
+    for s in stmts:
+        if s.get("k") == "Let" and s["pat"].get("k") == "Bind" and s.get("init") is not None:
+            ip = place(s["init"])
+            if ip:
+                alias[s["pat"]["name"]] = ip
     seen_reader = False
     for s in stmts:
         top_read = None
@@ -82,7 +89,7 @@ def analyse_arm(name, arm):
                 info["readers"].append({
                     "struct": L.struct_of_path(declared(n)), "target": place(n["recv"]),
                     "cursor_ok": len(a) == 2 and L.local_name(a[0]) == cur and cur is not None,
-                    "version": place(a[1]) if len(a) == 2 else None, "sp": tir.sp(n), "node": n})
+                    "version": alias.get(place(a[1]), place(a[1])) if len(a) == 2 else None, "sp": tir.sp(n), "node": n})
             elif is_read(n) and n is not top_read and L.local_name(n["recv"]) == cur:
                 info["problems"].append("read of the payload cursor that is not an unconditional header read at %s" % tir.sp(n))
     return info
